@@ -6,7 +6,7 @@ CONSTANTS
   Padding = TRUE
   RelFpuOK = TRUE
   Labels = {"la", "lb"}
-  MaxItems = 4
+  MaxItems = 3
   Fills = {1, 2, 126}
   AbsWidths = {4}
   EquOffs = {1}
